@@ -138,6 +138,8 @@ func sizeVal(n string, cap int) int {
 		return 6
 	case "half":
 		return cap/2 + 1
+	case "p60": // fits the cap alone, two of them do not
+		return cap * 3 / 5
 	case "capM1":
 		return cap - 1
 	case "cap":
@@ -240,10 +242,18 @@ func progPayload(s *Scn) (payload []byte, bounds []int, arg int) {
 	}
 	if isAd(s.Ep) {
 		cap := adCap(s.Ep)
-		for i, it := range s.Items {
-			cut := s.Cut && i == n-1
+		// a "rep" item stands for repN units of one kind; "units" is the true count
+		items, units := expandReps(s.Items)
+		n = len(items)
+		lastIsRep := len(s.Items) > 0 && s.Items[len(s.Items)-1].K == "rep"
+		for i, it := range items {
+			cut := s.Cut && i == n-1 && !lastIsRep
 			switch it.K {
 			case "int":
+				if it.C == "units" {
+					emit(refcodec.C13Int(int64(units)))
+					continue
+				}
 				var v int64
 				switch it.C {
 				case "auth":
@@ -351,6 +361,31 @@ func progPayload(s *Scn) (payload []byte, bounds []int, arg int) {
 		}
 	}
 	return payload, bounds, arg
+}
+
+const repN = 16
+
+// expandReps replaces every "rep" item by repN units (marker + secret, or one
+// expression) and counts the expression units of the result.
+func expandReps(in []Item) (out []Item, units int) {
+	for _, it := range in {
+		switch {
+		case it.K == "rep":
+			for k := 0; k < repN; k++ {
+				if it.C == "sec" {
+					out = append(out, Item{K: "str", C: "marker", N: "small", T: "T", P: it.P})
+				}
+				out = append(out, Item{K: "str", C: "ok", N: it.N, T: "T", P: it.P})
+				units++
+			}
+		default:
+			out = append(out, it)
+			if it.K == "str" && it.C != "marker" && it.C != "type" && it.C != "badtype" {
+				units++
+			}
+		}
+	}
+	return out, units
 }
 
 // capNeed is the number of PAYLOAD bytes after which a capped reader must have
